@@ -122,8 +122,10 @@ func main() {
 func generate(cfg *lib.Config, rng *lib.Rng) []input {
 	var ins []input
 	maxLen, nRandStr, nRandRx, nRandInt, nRandFloat, nRandType, nRandVal, nRandLex := 2, 3000, 1500, 2000, 4000, 1500, 1500, 2000
+	nRandObj := 1500
 	if cfg.Thorough() {
 		maxLen, nRandStr, nRandRx, nRandInt, nRandFloat, nRandType, nRandVal, nRandLex = 3, 60000, 20000, 20000, 60000, 20000, 20000, 20000
+		nRandObj = 20000
 	}
 	// strings
 	allWords(stringAlphabet, maxLen, func(s string) { ins = append(ins, strInput("string", s, "exhaustive")) })
@@ -219,6 +221,40 @@ func generate(cfg *lib.Config, rng *lib.Rng) []input {
 			c.Via = "shared"
 			ins = append(ins, input{Kind: "type", Recipe: &c, Family: "corner-shared"})
 		}
+	}
+	// Object types printed in full: every attribute kind x declared type x value, every part of the init hash,
+	// nested in other types, second generation, as values
+	for i, t := range cornerObjectRecipes() {
+		ins = append(ins, input{Kind: "type", Recipe: t, Family: "object-corner"})
+		if i%5 == 2 || t.Obj == nil || len(t.Obj.Attrs) != 1 {
+			c := *t
+			c.Via = "parsed"
+			ins = append(ins, input{Kind: "type", Recipe: &c, Family: "object-parsed"})
+		}
+		if i%11 == 3 || t.Obj != nil && len(t.Obj.Attrs) == 1 && t.Obj.Attrs[0].Kind == "constant" && t.Obj.Attrs[0].V != nil && t.Obj.Attrs[0].V.K == "Int" {
+			ins = append(ins, input{Kind: "value", Value: vArr("", vTypeR(t)), Family: "object-type-as-value"},
+				input{Kind: "value", Value: vHash("", vS("k"), vTypeR(t)), Family: "object-type-as-value"})
+		}
+	}
+	for i := 0; i < nRandObj; i++ {
+		r := rng.Fork()
+		t := rObj(randomObject(r, 2))
+		switch i % 8 {
+		case 1:
+			t = rArr(t, 0, lat.Max)
+		case 3:
+			t = rOpt(t)
+		case 5:
+			t.Via = "parsed"
+		}
+		if i%8 == 7 {
+			ins = append(ins, input{Kind: "value", Value: vArr("", vI(1), vTypeR(t)), Family: "object-type-as-value"})
+		} else {
+			ins = append(ins, input{Kind: "type", Recipe: t, Family: "object-random"})
+		}
+	}
+	for _, t := range objectTypeTexts() {
+		ins = append(ins, strInput("ptype", t, "object-corpus"))
 	}
 	// types given by their text: every argument form the creators accept
 	for _, t := range ptypeCorpus() {
@@ -352,6 +388,15 @@ func typeTags(t *Recipe) []string {
 		if r.K == "TimespanR" {
 			tags["timespan-with-bounds"] = true
 		}
+		if r.Obj != nil {
+			for _, as := range [][]*OAttr{r.Obj.Attrs, r.Obj.Consts} {
+				for _, a := range as {
+					for _, t := range valueTags(a.V) {
+						tags[t] = true
+					}
+				}
+			}
+		}
 		if r.K == "Pattern" || r.K == "Regexp" {
 			for _, s := range append([]string{r.S}, r.Strs...) {
 				if regexpNotRepresentable(s) {
@@ -388,6 +433,11 @@ func valueTags(v *VR) []string {
 				tags[t] = true
 			}
 		}
+		if v.R != nil {
+			for _, t := range typeTags(v.R) {
+				tags[t] = true
+			}
+		}
 		for _, e := range v.Sub {
 			rec(e)
 		}
@@ -414,6 +464,22 @@ func exactStringPrintsAsString(t *Recipe, parent string) bool {
 			return true
 		}
 	}
+	if t.Obj != nil {
+		found := false
+		for _, as := range [][]*OAttr{t.Obj.Attrs, t.Obj.Funcs, t.Obj.TParams} {
+			for _, a := range as {
+				found = found || exactStringPrintsAsString(a.T, "")
+			}
+		}
+		for _, as := range [][]*OAttr{t.Obj.Attrs, t.Obj.Consts} {
+			for _, a := range as {
+				found = found || a.V != nil && (valueHasExactString(a.V) || a.V.has("Sensitive"))
+			}
+		}
+		if found || exactStringPrintsAsString(t.Obj.Parent, "") {
+			return true
+		}
+	}
 	return exactStringPrintsAsString(t.Ret, t.K) || exactStringPrintsAsString(t.Block, t.K)
 }
 
@@ -421,6 +487,9 @@ func valueHasExactString(v *VR) bool {
 	found := false
 	v.walk(func(x *VR) {
 		if x.T != nil && exactStringPrintsAsString(fromSpec(x.T), "") {
+			found = true
+		}
+		if x.R != nil && exactStringPrintsAsString(x.R, "") {
 			found = true
 		}
 	})
@@ -557,12 +626,22 @@ func evaluate(cfg *lib.Config, res *lib.Result, in input, o Obs, em *emitter, id
 			}
 		}
 	case "type":
+		em.addObject(in, o)
 		if o.Class == "nobuild" {
 			res.Count("type.nobuild")
 			return
 		}
 		if exactStringPrintsAsString(in.Recipe, "") {
 			res.Count("type.excluded.exact-string-type")
+		} else if recipeNamedObject(in.Recipe) {
+			// a named Object type prints as its name, which stands for the type only where a loader knows it: the
+			// full text (types.Expanded) is what reads back
+			res.Count("type.named-object.expanded-only")
+			if in.Recipe.Obj != nil && !expandedRoundTrip(in, o, violate, typeTags(in.Recipe)) {
+				em.failed = true
+			}
+		} else if in.Recipe.Obj != nil && !expandedRoundTrip(in, o, violate, typeTags(in.Recipe)) {
+			em.failed = true
 		} else if roundTrip(typeTags(in.Recipe), "the type "+in.Recipe.json()) {
 			if strings.ContainsAny(text, "[{") {
 				res.Nontrivial("t:" + in.Recipe.json())
@@ -616,6 +695,26 @@ func evaluate(cfg *lib.Config, res *lib.Result, in input, o Obs, em *emitter, id
 	if idx%997 == 3 {
 		res.Sample(map[string]interface{}{"input": in, "printed": text, "equal": o.Aux["equal"]})
 	}
+}
+
+// expandedRoundTrip: an Object type printed in full (types.Expanded) parses back to an equal type that prints the same
+func expandedRoundTrip(in input, o Obs, violate func(clause, what string, tags []string), tags []string) bool {
+	what, text := "the Object type "+in.Recipe.json(), unhex(o.Aux["extext"])
+	switch {
+	case o.Aux["exprint"] == "":
+		return true
+	case o.Aux["exprint"] != "ok":
+		violate("prints", fmt.Sprintf("%s cannot be printed in full: %s %s", what, o.Aux["exprint"], o.Aux["exmsg"]), tags)
+	case o.Aux["exparse"] != "ok":
+		violate("parses", fmt.Sprintf("%s prints in full as %q, which does not parse: %s %s", what, text, o.Aux["exparse"], o.Aux["exmsg"]), tags)
+	case o.Aux["exeqclass"] != "ok" || o.Aux["exequal"] != "true":
+		violate("equal", fmt.Sprintf("%s prints in full as %q, which parses to a type not equal to it (that prints as %q)", what, text, unhex(o.Aux["extext2"])), tags)
+	case unhex(o.Aux["extext2"]) != text:
+		violate("prints-same", fmt.Sprintf("%s prints in full as %q, the parsed type as %q", what, text, unhex(o.Aux["extext2"])), tags)
+	default:
+		return true
+	}
+	return false
 }
 
 func describe(in input) string {
